@@ -96,14 +96,14 @@ def invoke(fn, names_, args, environment, pos):
         if isinstance(arg, NodeSpread):
             argvalue = arg.evaluate(environment)
             if argvalue.isMap():
-                for key, value in argvalue.value.items():
-                    values.append(value)
+                for key in argvalue.getSortedKeys():
+                    values.append(argvalue.value[key])
                     if key.isString():
                         names.append(key.value)
                     else:
                         names.append(None)
             elif argvalue.isList() or argvalue.isSet():
-                for value in argvalue.value:
+                for value in argvalue.asList().value:
                     values.append(value)
                     names.append(None)
             else:
@@ -1234,7 +1234,11 @@ class NodeList:
                         f"Cannot spread {lst.type()} value",
                         self.pos,
                     )
-                for value in lst.value:
+                if lst.isMap():
+                    values = lst.getSortedKeys()
+                else:
+                    values = lst.asList().value
+                for value in values:
                     result.addItem(value)
             else:
                 result.addItem(item.evaluate(environment))
